@@ -149,3 +149,12 @@ Example split_joint_nonvacuous :
   map (fun p => fst (fst p)) (pm_params (split_joint [sETA2] m)) = [sT1; sOM; sOM2] /\
   same_structure m (mkPM pheno_prog (pm_params m ++ [(sN2, 0%Q, false)]) (rev (pm_rvs m)) [sY] 1%positive) = true.
 Proof. repeat split; vm_compute; reflexivity. Qed.
+
+(* a 3x3 block from which the middle eta is unjoined: a 2x2 block of the outer two remains (sub-matrix), and every
+   random variable keeps its variance *)
+Example unjoin_rv_vars_nonvacuous :
+  let ds := [DJoint [sETA; sETA2; sE1] [[[sOM]; [sN1]; [sN2]]; [[sN1]; [sOM2]; [sT1]]; [[sN2]; [sT1]; [sT2]]]] in
+  unjoin [sETA2] ds = [DNormal sETA2 [sOM2]; DJoint [sETA; sE1] [[[sOM]; [sN2]]; [[sN2]; [sT2]]]] /\
+  flat_map rv_vars ds = [(sETA, [sOM]); (sETA2, [sOM2]); (sE1, [sT2])] /\
+  flat_map rv_vars (unjoin [sETA2] ds) = [(sETA2, [sOM2]); (sETA, [sOM]); (sE1, [sT2])].
+Proof. repeat split; vm_compute; reflexivity. Qed.
